@@ -34,11 +34,55 @@ def opname_literals(test: ast.AST) -> List[Tuple[ast.Compare, List[str]]]:
     return out
 
 
+def _always_leaves(body: List[ast.stmt]) -> bool:
+    """the block cannot fall through to what follows it (ends in return / raise / continue / break, or in an if whose
+    branches both do)"""
+    if not body:
+        return False
+    last = body[-1]
+    if isinstance(last, (ast.Return, ast.Raise, ast.Continue, ast.Break)):
+        return True
+    if isinstance(last, ast.If):
+        return _always_leaves(last.body) and _always_leaves(last.orelse)
+    return False
+
+
 def guards_of(mod: Mod, node: ast.AST, stop: ast.AST) -> List[Tuple[ast.AST, bool]]:
     """path conditions (test, polarity) from `stop` down to `node` (If / While ancestors)"""
     out: List[Tuple[ast.AST, bool]] = []
     child = node
     for a in mod.ancestors(node):
+        if a is stop:
+            break
+        if isinstance(a, ast.If):
+            if any(child is s for s in a.body):
+                out.append((a.test, True))
+            elif any(child is s for s in a.orelse):
+                out.append((a.test, False))
+        elif isinstance(a, ast.While):
+            if any(child is s for s in a.body):
+                out.append((a.test, True))
+        child = a
+    return out[::-1]
+
+
+def path_guards_of(mod: Mod, node: ast.AST, stop: ast.AST) -> List[Tuple[ast.AST, bool]]:
+    """guards_of plus guard clauses: earlier `if c: <leaves>` statements in the enclosing blocks (then c is false here)"""
+    out: List[Tuple[ast.AST, bool]] = []
+    child = node
+    for a in mod.ancestors(node):
+        for fld in ("body", "orelse", "finalbody"):
+            blk = getattr(a, fld, None)
+            if isinstance(blk, list) and any(child is s for s in blk):
+                idx = [i for i, s in enumerate(blk) if s is child][0]
+                pre: List[Tuple[ast.AST, bool]] = []
+                for s in blk[:idx]:
+                    if isinstance(s, ast.If):
+                        if _always_leaves(s.body) and not _always_leaves(s.orelse):
+                            pre.append((s.test, False))
+                        elif s.orelse and _always_leaves(s.orelse) and not _always_leaves(s.body):
+                            pre.append((s.test, True))
+                out.extend(pre[::-1])
         if a is stop:
             break
         if isinstance(a, ast.If):
